@@ -421,52 +421,65 @@ def make_paired(stratA, stratB, phase, d=1, n=2, inf=False):
         return None
 
     def replay(m, label, v):
-        res = {}
-        for strat in (stratA, stratB):
-            cnt = {"n": 0}
+        def scenario(kind):
+            res = {}
+            for strat in (stratA, stratB):
+                cnt = {"n": 0}
 
-            def fpt(xr):
-                cnt["n"] += 1
-                if inf and xr[0] < 0.5:
-                    return -np.inf
-                return -float(np.sum((xr - 0.3) ** 2)) * 5
+                def fpt(xr):
+                    cnt["n"] += 1
+                    if inf and xr[0] < 0.5:
+                        return -np.inf
+                    return -float(np.sum((xr - 0.3) ** 2)) * 5
 
-            def fb(xx):
-                cnt["n"] += len(xx)
-                out = -np.sum((xx - 0.3) ** 2, axis=1) * 5
-                return np.where(xx[:, 0] < 0.5, -np.inf, out) if inf else out
-            kw = dict(n_dim=d, n_particles=n, clustering=False, sample="rwm", n_steps=1, n_max_steps=1)
-            smp = Sampler(lambda u: u, fb, vectorize=True, **kw) if strat == "vectorized" else Sampler(lambda u: u, fpt, **kw)
-            st = smp.state
-            rng = np.random.RandomState(3)
-            if phase == "warmup":
-                st.update_current({"beta": 0.0, "calls": 7, "logz": 0.0, "iter": 1})
-                ms = None
-            else:
-                u = rng.rand(n, d)
-                st.update_current({"u": u, "x": u.copy(), "logl": -np.sum((u - 0.3) ** 2, axis=1) * 5,
-                                   "assignments": np.zeros(n, dtype=int), "beta": 0.8, "calls": 7, "iter": 3})
-                from tempest.modes import ModeStatistics
-                ms = ModeStatistics(np.full((1, d), 0.4), (0.05 * np.eye(d)).reshape(1, d, d), np.array([3.0]))
-            s0 = np.random.get_state()
-            np.random.seed(11)
-            real_randn = np.random.randn
-            try:
-                if phase == "mcmc" and label.startswith("calls=="):
-                    np.random.randn = lambda *a: np.full(a, 50.0)  # every proposal leaves the unit cube
-                with np.errstate(all="ignore"):
-                    smp._core.mutator.run(ms)
-            finally:
-                np.random.randn = real_randn
-                np.random.set_state(s0)
-            res[strat] = (st.get_current(), cnt["n"])
-        (ca, pa), (cb_, pb) = res[stratA], res[stratB]
-        bad = (not np.array_equal(ca["u"], cb_["u"])) or (not np.array_equal(ca["logl"], cb_["logl"])) or \
-              ca["calls"] != 7 + pa or cb_["calls"] != 7 + pb or bool(np.any(np.isinf(ca["logl"])) != np.any(np.isinf(cb_["logl"])))
-        return {"reproduced": bool(bad), "signature": f"Mutator.run:{phase}:{label}",
-                "payload": {"calls": [int(ca["calls"]), int(cb_["calls"])], "evaluated": [pa, pb]},
-                "what": f"Mutator.run ({phase}) under {stratA} vs {stratB}: calls {ca['calls']},{cb_['calls']} vs evaluated points {pa},{pb}; "
-                        f"states equal={np.array_equal(ca['u'], cb_['u'])}"}
+                def fb(xx):
+                    cnt["n"] += len(xx)
+                    out = -np.sum((xx - 0.3) ** 2, axis=1) * 5
+                    return np.where(xx[:, 0] < 0.5, -np.inf, out) if inf else out
+                kw = dict(n_dim=d, n_particles=n, clustering=False, sample="rwm", n_steps=1, n_max_steps=1)
+                smp = Sampler(lambda u: u, fb, vectorize=True, **kw) if strat == "vectorized" else Sampler(lambda u: u, fpt, **kw)
+                st = smp.state
+                rng = np.random.RandomState(3)
+                if phase == "warmup":
+                    st.update_current({"beta": 0.0, "calls": 7, "logz": 0.0, "iter": 1})
+                    ms = None
+                else:
+                    u = rng.rand(n, d)
+                    st.update_current({"u": u, "x": u.copy(), "logl": -np.sum((u - 0.3) ** 2, axis=1) * 5,
+                                       "assignments": np.zeros(n, dtype=int), "beta": 0.8, "calls": 7, "iter": 3})
+                    from tempest.modes import ModeStatistics
+                    ms = ModeStatistics(np.full((1, d), 0.4), (0.05 * np.eye(d)).reshape(1, d, d), np.array([3.0]))
+                s0 = np.random.get_state()
+                np.random.seed(11)
+                real_randn = np.random.randn
+                k = {"i": 0}
+
+                def randn(*a):
+                    k["i"] += 1
+                    if kind == "all-out-of-bounds" or (kind == "mixed" and k["i"] % 2 == 1):
+                        return np.full(a, 50.0)
+                    return real_randn(*a) * 0.01
+                try:
+                    if phase == "mcmc" and kind != "natural":
+                        np.random.randn = randn
+                    with np.errstate(all="ignore"):
+                        smp._core.mutator.run(ms)
+                finally:
+                    np.random.randn = real_randn
+                    np.random.set_state(s0)
+                res[strat] = (st.get_current(), cnt["n"])
+            (ca, pa), (cb_, pb) = res[stratA], res[stratB]
+            bad = (not np.array_equal(ca["u"], cb_["u"])) or (not np.array_equal(ca["logl"], cb_["logl"])) or \
+                ca["calls"] != 7 + pa or cb_["calls"] != 7 + pb or bool(np.any(np.isinf(ca["logl"])) != np.any(np.isinf(cb_["logl"])))
+            return bad, (int(ca["calls"]), int(cb_["calls"]), pa, pb, bool(np.array_equal(ca["u"], cb_["u"])))
+        for kind in ("natural", "mixed", "all-out-of-bounds"):
+            bad, info = scenario(kind)
+            if bad:
+                return {"reproduced": True, "signature": f"Mutator.run:{phase}:{label}",
+                        "payload": {"scenario": kind, "calls": info[:2], "evaluated": info[2:4]},
+                        "what": f"Mutator.run ({phase}, proposals: {kind}) under {stratA} vs {stratB}: calls {info[0]},{info[1]} vs 7 + evaluated points {info[2]},{info[3]}; "
+                                f"states equal={info[4]}"}
+        return {"reproduced": False, "what": "paired concrete runs (natural / mixed / all-out-of-bounds proposals) agree and count exactly"}
 
     return Obligation(f"paired-{phase}-{stratA}-vs-{stratB}{'-zero-likelihood-region' if inf else ''}", harness, replay=replay,
                       encodes=[mutate_mod.Mutator.run, core_mod.SamplerCore._log_like, mcmc.BaseMCMCRunner._evaluate_likelihood, mcmc.BaseMCMCRunner.run],
